@@ -864,6 +864,9 @@ class Interp:
                 "C06", "answered_by_watchdog", session=sess.sid, cmd=cmd[:80], latency=round(r.latency, 2),
                 text=(r.text or "")[:80], verb=r.verb, uid=r.uid,
             )
+            if "C10" in self.props:
+                # a command that only the watchdog answers was starved
+                self.V("C10", "starvation", session=sess.sid, cmd=cmd[:80], latency=round(r.latency, 2), waitfor=self.waitfor_picture())
 
     async def run_cmd(self, sess, ms, line, **kw):
         if sess.lost:
